@@ -11,7 +11,7 @@ ALL = ["knapsack", "misp", "max2sat", "mcp", "lcs", "golomb", "sop", "tsptw", "s
 def build_examples():
     env = dict(os.environ, CARGO_NET_OFFLINE="true", CARGO_TARGET_DIR=EX_TARGET)
     t0 = time.time()
-    p = subprocess.run(["cargo", "build", "--offline", "--release", "--examples", "-p", "ddo"], cwd="/repo", env=env, capture_output=True, text=True)
+    p = subprocess.run(["cargo", "build", "--offline", "--release", "--examples", "-p", "ddo"], cwd=REPO, env=env, capture_output=True, text=True)
     if p.returncode != 0:
         log(p.stderr[-3000:])
         raise ToolError("the example programs do not build")
